@@ -289,6 +289,17 @@ def spell_float(ty, text, style, env, tag):
     if style == "parenlit":
         e = lit(body if ("." in body or "e" in body) else body + ".0")
         return par(neg(e) if negative else e)
+    if style in ("userassoc", "usermod"):
+        # a user constant that merely shares its name with a limit of the inner type
+        txt = text if "." in text or "e" in text else text + ".0"
+        which = "MIN" if negative else "MAX"
+        if style == "userassoc":
+            nm = "Lim%s" % tag.capitalize()
+            env.append(("%s::%s" % (nm, which), ty, fbits(text, is64), "pub struct %s; impl %s { pub const %s: %s = %s; }" % (nm, nm, which, ty, txt)))
+        else:
+            nm = "lim_%s" % tag
+            env.append(("%s::%s" % (nm, which), ty, fbits(text, is64), "pub mod %s { pub const %s: %s = %s; }" % (nm, which, ty, txt)))
+        return k("%s::%s" % (nm, which))
     raise ValueError(style)
 
 
@@ -315,7 +326,7 @@ FLOAT_SHAPES = [
 FLOAT_PAIRS = [("0.0", "10.0"), ("-5.5", "1e3"), ("-0.0", "0.0"), ("0.1", "0.3"), ("-100", "100"),
                ("1.0", "1.0"), ("-3.0e38", "3.0e38"), ("64.0", "65.0"), ("1e-40", "1e-39"),
                ("-1e3", "-2.5E-3"), ("5", "7.25"), ("1_000.5", "2_000.5")]
-FLOAT_STYLES = ["lit", "const", "negconst", "parenconst", "lit", "parenlit"]
+FLOAT_STYLES = ["lit", "const", "negconst", "parenconst", "lit", "parenlit", "userassoc", "usermod"]
 FLOAT_DERIVES = ["Debug", "Clone", "Copy", "PartialEq", "PartialOrd", "FromStr", "AsRef", "Into",
                  "TryFrom", "Borrow", "Display", "Deref"]
 
@@ -444,7 +455,7 @@ STR_VAL_SETS = [
 REGEX_LITS = ["^[a-z]+$", "@", "^.{2,4}$"]
 STR_DERIVES = ["Debug", "Clone", "PartialEq", "Eq", "PartialOrd", "Ord", "Hash", "FromStr", "AsRef",
                "Into", "TryFrom", "Borrow", "Display", "Deref"]
-USIZE_STYLES = ["lit", "const", "paren", "arith", "call", "parenconst", "shift"]
+USIZE_STYLES = ["lit", "const", "paren", "arith", "call", "parenconst", "shift", "userassoc", "usermod"]
 
 
 def gen_str_guards(rng, n=160, start=0):
